@@ -109,6 +109,41 @@ Theorem c06_no_send_on_closed c sch s a s' :
 Proof. exact (p_no_send_on_closed c sch s a s'). Qed.
 Print Assumptions c06_no_send_on_closed.
 
+(** the queue never holds more than qcap records, the export buffer never more than bufsz
+    requests, no payload is larger than one queue, and a failed Export call costs at most
+    the rest of one payload: qcap - maxb records per failure *)
+Theorem c06_bounded c sch s :
+  valid c -> exec c sch = Some s ->
+  length (ring s) <= qcap c /\ length (input s) <= bufsz c /\
+  Forall (fun q => length (req_recs q) <= qcap c) (input s) /\
+  length (lostE s) <= fails (hist s) * (qcap c - maxb c).
+Proof. exact (p_bounded c sch s). Qed.
+Print Assumptions c06_bounded.
+
+(** what ForceFlush still guarantees after failed Export calls (F-C06-3 makes the full
+    clause false): when it returns nil and no Shutdown was called, the records emitted
+    before it that are neither handed to the exporter nor excused as overwritten number
+    at most (#failed Export calls so far) * (qcap - maxb); with no failure, none.
+    This clause is part of [spec_ok] (flush_ok / shut_ok), so a change that loses more than
+    the known finding does is a specification failure, not a classified finding. *)
+Theorem c06_flush_bounded_loss c sch s :
+  valid c -> exec c sch = Some s ->
+  forall h1 t h2, hist s = h1 ++ EvRet t OpFlush RNil :: h2 -> shut_calls h1 = 0 ->
+  length (missing c h1 t) <= fails h1 * (qcap c - maxb c).
+Proof. exact (p_flush_bounded_loss c sch s). Qed.
+Print Assumptions c06_flush_bounded_loss.
+
+(** what remains of per-goroutine order WITHOUT the guard (F-C06-2 makes the full clause
+    false when a ForceFlush overlaps a Shutdown): every record exported before the first
+    Shutdown call precedes, goroutine by goroutine, every record exported later.  This is
+    the else-branch of the order clause of [spec_ok]. *)
+Theorem c06_order_before_shutdown c sch s :
+  valid c -> exec c sch = Some s ->
+  forall h1 b h2, hist s = h1 ++ EvBegin b :: h2 ->
+  forall a x, In a (exported (before_shut h1)) -> In x b -> before_ok a x = true.
+Proof. exact (p_order_before_shutdown c sch s). Qed.
+Print Assumptions c06_order_before_shutdown.
+
 (** ** The literal statement is false of the code as it is: witnesses (known findings) *)
 Definition strict_fails (c : config) (sch : list action) : bool :=
   match exec c sch with
@@ -179,3 +214,25 @@ Example c06_nonvacuous :
   | None => false
   end = true.
 Proof. split; [cbv; lia | vm_compute; reflexivity]. Qed.
+
+(** the loss bound is attained: queue 4, batch 1, four records flushed as one payload, the
+    first chunk fails, three records (= 1 * (4 - 1)) are never passed to the exporter *)
+Definition w_fail_tight : list action :=
+  [AEmit 1 0; AStep 1; AEmit 1 0; AStep 1; AEmit 1 0; AStep 1; AEmit 1 0; AStep 1;
+   AFlush 2; AStep 2; AXTake; AXBegin; AXEnd false; AStep 2; AStep 2; AXTake; AStep 2].
+Example c06_loss_bound_tight :
+  match exec (mkcfg 4 1 2) w_fail_tight with
+  | Some s => (length (missing (mkcfg 4 1 2) (hist s) 2) =? 3) && (fails (hist s) =? 1) &&
+              (length (lostE s) =? 3) && spec_ok (mkcfg 4 1 2) (hist s)
+  | None => false
+  end = true.
+Proof. vm_compute. reflexivity. Qed.
+
+(** on the three-party schedule of F-C06-2 the guarded specification (with its proved
+    remainder of the order clause) holds, the literal one does not *)
+Example c06_order_witness_judged :
+  match exec (mkcfg 4 4 2) w_order with
+  | Some s => spec_ok (mkcfg 4 4 2) (hist s) && negb (spec_strict (mkcfg 4 4 2) (hist s)) && overlap (hist s)
+  | None => false
+  end = true.
+Proof. vm_compute. reflexivity. Qed.
